@@ -172,3 +172,23 @@ def process_transition_obligations():
             for lbl, g in goals:
                 out.append(('py:_process_transition[%s]#%s#%d' % (tag, lbl, k), p.pc, g))
     return out
+
+
+def era_overlap_obligations():
+    """ZoneSpecifier._era_overlaps_interval <-> ExtendedZoneProcessor::eraOverlapsInterval"""
+    I = z3.Int
+    prev = Record({'untilYear': I('o_py'), 'untilMonth': I('o_pm'), 'untilDay': I('o_pd'), 'untilSeconds': I('o_ps')})
+    era = Record({'untilYear': I('o_ey'), 'untilMonth': I('o_em'), 'untilDay': I('o_ed'), 'untilSeconds': I('o_es')})
+    sym, uym = Record({'y': I('o_sy'), 'M': I('o_sm')}), Record({'y': I('o_uy'), 'M': I('o_um')})
+    ex = PyExec(ZS)
+    paths = ex.run('ZoneSpecifier._era_overlaps_interval', {'prev_era': prev, 'era': era, 'start_ym': sym, 'until_ym': uym},
+                   pre=[I('o_pd') >= 1, I('o_ps') >= 0, I('o_ed') >= 1, I('o_es') >= 0])
+    lex_lt = lambda a, b: z3.Or(a[0] < b[0], z3.And(a[0] == b[0], z3.Or(a[1] < b[1], z3.And(a[1] == b[1], z3.Or(a[2] < b[2], z3.And(a[2] == b[2], a[3] < b[3]))))))
+    one, zero = z3.IntVal(1), z3.IntVal(0)
+    starts_before_the_end = lex_lt((I('o_py'), I('o_pm'), I('o_pd'), I('o_ps')), (I('o_uy'), I('o_um'), one, zero))
+    ends_after_the_start = lex_lt((I('o_sy'), I('o_sm'), one, zero), (I('o_ey'), I('o_em'), I('o_ed'), I('o_es')))
+    out = []
+    for k, p in enumerate(paths):
+        out.append(('py:_era_overlaps_interval#era-starts-before-the-interval-ends-and-ends-after-it-starts#%d' % k, p.pc,
+                    as_bool(p.value) == z3.And(starts_before_the_end, ends_after_the_start)))
+    return out
